@@ -139,7 +139,11 @@ def chain_scenarios(tier):
     """C18: a fair adversary keeps at least one finite read section open at every instant while the
     writer stores; a fair cycle (lasso) in which the writer never returns is a livelock."""
     q = [("chain_r2_s3", ["--mode", "chain", "--readers", 2, "--stores", 3]),
-         ("chain_r3_s2", ["--mode", "chain", "--readers", 3, "--stores", 2])]
+         ("chain_r3_s2", ["--mode", "chain", "--readers", 3, "--stores", 2]),
+         # two mutators: if their barriers can overlap (the writers' mutex released too early), one
+         # flips the generation back while the other still waits for the slot to drain
+         ("chain_r2_w2_s2", ["--mode", "chain", "--readers", 2, "--writers", 2, "--stores", 2]),
+         ("chain_r3_w2_s2", ["--mode", "chain", "--readers", 3, "--writers", 2, "--stores", 2])]
     if tier == "thorough":
         q.append(("chain_r2_s8", ["--mode", "chain", "--readers", 2, "--stores", 8]))
     return q
